@@ -111,6 +111,18 @@ BUILTINS = {'dict', 'range', 'enumerate', 'str', 'int', 'len', 'abs', 'isinstanc
 PURE_MODULES = {'bisect', 'math', 'operator', 'string'}
 
 
+def _own_nodes(fn):
+    """Nodes of a function body excluding nested function / class definitions and lambdas."""
+    stack = list(fn.body)
+    while stack:
+        n = stack.pop()
+        yield n
+        for c in ast.iter_child_nodes(n):
+            if isinstance(c, (ast.FunctionDef, ast.AsyncFunctionDef, ast.ClassDef, ast.Lambda)):
+                continue
+            stack.append(c)
+
+
 class _ChainEnv(dict):
     """Local environment of a nested function: own names first, then the (live) environment of the enclosing call."""
 
@@ -222,7 +234,7 @@ class Folder:
             if fn is None:
                 for cc in self.repo.mro(obj.cls):
                     if name in cc.assigns:
-                        return self._eval(cc.assigns[name], {}, cc.module, cc)
+                        return self._class_attr(cc, name)
                 for cc in self.repo.mro(obj.cls):
                     nested = cc.module.classes.get(f'{cc.name}.{name}')
                     if nested is not None:
@@ -249,7 +261,7 @@ class Folder:
                     return Bound(None, c, fn)
                 return Bound('UNBOUND', c, fn)
             if name in ci.assigns:
-                return self._eval(ci.assigns[name], {}, ci.module, ci)
+                return self._class_attr(ci, name)
             nested = ci.module.classes.get(f'{ci.name}.{name}')
             if nested is not None:
                 return ClsRef(nested)
@@ -273,7 +285,7 @@ class Folder:
             return ('strmethod', obj, name)
         if isinstance(obj, tuple) and len(obj) == 2 and obj[0] == 'pymodule' and obj[1] == 're':
             import re as _re
-            if name in ('sub', 'findall', 'match', 'fullmatch', 'search', 'split'):
+            if name in ('sub', 'findall', 'match', 'fullmatch', 'search', 'split', 'compile', 'escape', 'finditer'):
                 return ('pyfunc', getattr(_re, name))
             if name in ('IGNORECASE', 'I', 'MULTILINE', 'DOTALL'):
                 return getattr(_re, name)
@@ -287,13 +299,35 @@ class Folder:
         if isinstance(obj, tuple) and len(obj) == 2 and obj[0] == 'pymodule':
             return ('extern', f'{obj[1]}.{name}')      # opaque constant of a module outside the package
         import re as _re2
-        if isinstance(obj, _re2.Match) and name in ('group', 'groups', 'start', 'end', 'span'):
+        if isinstance(obj, _re2.Match) and name in ('group', 'groups', 'start', 'end', 'span', 'groupdict'):
             return ('strmethod', obj, name)
+        if isinstance(obj, _re2.Pattern) and name in ('match', 'fullmatch', 'search', 'sub', 'findall', 'split', 'finditer'):
+            return ('strmethod', obj, name)
+        if isinstance(obj, _re2.Pattern) and name == 'pattern':
+            return obj.pattern
+        if obj == ('builtin', 'dict') and name == 'fromkeys':
+            return ('pyfunc', dict.fromkeys)
         if isinstance(obj, list) and name in ('append', 'index', 'count', 'pop', 'extend', 'insert', 'remove', 'clear', 'copy'):
             return ('strmethod', obj, name)
         if isinstance(obj, set) and name in ('add', 'remove', 'discard', 'copy', 'union', 'issubset', 'pop', 'clear', 'update'):
             return ('strmethod', obj, name)
         raise Unsupported(f'attribute {name} on {type(obj).__name__}')
+
+    def _class_attr(self, ci: ClassInfo, name: str):
+        """Value of a class-level assignment, evaluated once per Folder in the scope of the class body (earlier class-level names
+        are visible, as when the class statement runs)."""
+        cache = self.__dict__.setdefault('_class_attr_cache', {})
+        key = (ci.module.name, ci.name, name)
+        if key in cache:
+            return cache[key]
+        env = {}
+        for n in ci.order:
+            if n == name:
+                break
+            if n in ci.assigns and any(isinstance(x, ast.Name) and x.id == n for x in ast.walk(ci.assigns[name])):
+                env[n] = self._class_attr(ci, n)
+        cache[key] = self._eval(ci.assigns[name], env, ci.module, ci)
+        return cache[key]
 
     def _call_bound(self, b: Bound, args, kw):
         if b.self_val == 'UNBOUND':
@@ -331,6 +365,17 @@ class Folder:
                 env[p] = self._eval(dmap[p], {}, mod, ci)
             else:
                 raise Unsupported(f'missing argument {p} for {fn.name}')
+        is_gen = any(isinstance(x, (ast.Yield, ast.YieldFrom)) for x in _own_nodes(fn))
+        if is_gen:
+            # a generator function: evaluated eagerly, its yields collected in order (sound when the consumer does not interleave
+            # effects on state the generator reads - the consumers in this repository only iterate)
+            out: list = []
+            env['__yield__'] = out
+            try:
+                self._block(fn.body, env, mod, ci)
+            except _Return:
+                pass
+            return out
         try:
             self._block(fn.body, env, mod, ci)
         except _Return as r:
@@ -369,6 +414,14 @@ class Folder:
                     raise Unsupported('augassign to non-local')
                 cur = env[st.target.id]
                 env[st.target.id] = self._binop(st.op, cur, self._eval(st.value, env, mod, ci))
+            elif isinstance(st, ast.Expr) and isinstance(st.value, ast.Yield):
+                if '__yield__' not in env:
+                    raise Unsupported('yield outside a folded generator')
+                env['__yield__'].append(self._eval(st.value.value, env, mod, ci) if st.value.value is not None else None)
+            elif isinstance(st, ast.Expr) and isinstance(st.value, ast.YieldFrom):
+                if '__yield__' not in env:
+                    raise Unsupported('yield outside a folded generator')
+                env['__yield__'].extend(list(self._eval(st.value.value, env, mod, ci)))
             elif isinstance(st, ast.Expr):
                 if isinstance(st.value, ast.Constant):
                     continue
@@ -403,6 +456,8 @@ class Folder:
                 elif isinstance(it, (set, frozenset)):
                     it = sorted(it, key=repr)
                 elif isinstance(it, (dict, type({}.items()), type({}.keys()), type({}.values()))):
+                    it = list(it)
+                if getattr(it, '_sa_native', False) and hasattr(it, '__iter__'):
                     it = list(it)
                 if not isinstance(it, (list, tuple, range, str)):
                     raise Unsupported('for over ' + type(it).__name__)
@@ -530,7 +585,7 @@ class Folder:
                 if val == args[0] and type(val) is type(args[0]):
                     return EV(ci, n, val)
             raise FoldRaise('ValueError', f'{args[0]!r} is not a valid {ci.name}')
-        if ci.is_dataclass:
+        if ci.is_dataclass or ci.is_namedtuple:
             names = [n for n in ci.order if n in ci.annots]
             fields: Dict[str, Any] = {}
             for i, n in enumerate(names):
@@ -870,7 +925,7 @@ class Folder:
             return self._eval(node.body, env2, cmod, cci)
         if isinstance(f, tuple) and f[0] == 'strmethod':
             try:
-                return getattr(f[1], f[2])(*args, **kw)
+                return getattr(f[1], f[2])(*[self._as_callable(a) for a in args], **kw)
             except Exception as ex:  # noqa
                 raise FoldRaise(type(ex).__name__, str(ex))
         if isinstance(f, tuple) and f[0] == 'builtin':
@@ -947,6 +1002,22 @@ class Folder:
                     args[0].fields[args[1]] = args[2]
                     return None
                 raise Unsupported('setattr on a non-object')
+            if n == 'iter':
+                if len(args) == 2:
+                    fn_ = self._as_callable(args[0])
+                    out_ = []
+                    while True:
+                        self.steps += 1
+                        if self.steps > self.max_steps:
+                            raise Unsupported('step limit')
+                        v_ = fn_() if callable(fn_) else self._call_value(fn_, [])
+                        if v_ == args[1]:
+                            return out_
+                        out_.append(v_)
+                it_ = args[0]
+                if getattr(it_, '_sa_native', False) and hasattr(it_, '__iter__'):
+                    return list(it_)
+                return list(it_)
             if n == 'divmod':
                 return divmod(*args)
             if n == 'round':
